@@ -7,6 +7,7 @@ table, configured excess) and the switch setting `codeToday`.
 
   http reset                       store = [genesis], no webhooks                         → ok
   http add <hex160>                Chains.Add of an 80-byte header (model of C01)         → ok <rows> | bad-header
+  http dump                        the header store, same rendering as the chain driver   → <row>;<row>…
   http excess <int>                merkleroot.max_block_height_excess                     → ok
   http hook <xurl> <0|1>           put a webhook row (active flag) into the table         → ok
   http req <auth> <handler> <args…>                                                       → <status>|<bodies>|<n>
@@ -24,6 +25,7 @@ table, configured excess) and the switch setting `codeToday`.
 -/
 import BHS.Model.Http
 import BHS.Model.Header
+import Driver.Ops.Chain
 
 namespace Driver.Ops.Http
 open BHS BHS.Chain BHS.Http
@@ -108,6 +110,7 @@ def handle (st : S) : List String → Option (S × String)
       let p := plan cfg st.env.store x
       let s' := applyWrites st.env.store p.2
       some ({ st with env := { st.env with store := s' } }, s!"ok {s'.length}")
+  | ["http", "dump"] => some (st, ";".intercalate (st.env.store.map Driver.Ops.Chain.rowStr))
   | ["http", "excess", e] =>
     match e.toInt? with
     | some k => some ({ st with env := { st.env with excess := k } }, "ok")
